@@ -430,7 +430,7 @@ def run(ctx, R, tier):
         # the other property's own anchors are gone on this tree: its check reports that; what it produced before is still shared
         R.note("obligations shared from C17 are incomplete on this tree: %s" % _shared_x)
     for o in R17.obs:
-        if o.rule in ("C17-R1", "C17-R5"):
+        if o.rule in ("C17-R1", "C17-R5") or (o.rule == "C17-R3" and o.key.split("|")[1] == "receive_data"):
             R.add("C06-R8", o.key.split("|", 1)[1], o.desc + " (recv_stub relies on it to consume exactly this message's bytes)", o.ok, o.loc, o.detail)
 
     # ---------------------------------------------------------------- R7
